@@ -338,7 +338,7 @@ func init() {
 			if v, ok := w.ext["fixrandom"]; ok {
 				w.store(&b[i], v.(*Term))
 			} else {
-				w.store(&b[i], w.tt.Fresh("crand", 8))
+				w.store(&b[i], w.cryptoRandByte())
 			}
 		}
 		return Tuple{w.tt.BV(64, uint64(len(b))), w.nilError()}
